@@ -48,6 +48,19 @@ TEXT["C12"] = ("Theorems over the element model (element.hpp branch matrix x all
                "copy assignment (field-wise and reallocating), move assignment (all four branches) and swap preserve/exchange the values; "
                "assignment back to a reference preserves values; vectors and elements do not affect each other. Correspondence: element "
                "operations under all ten allocator-trait combinations with ledger, value oracle and address monitors.")
+TEXT["C19"] = ("PARTIAL. Theorems: every const operation of the model is a function of the shared state and leaves every shared vector "
+               "unchanged (copy construction and element construction write only to the caller's fresh object), so under any "
+               "interleaving of const operations from any number of threads the shared state is invariant and each query returns what "
+               "a sequential run returns: the schedule quantifier is discharged by the theorem. The premise that the compiled const "
+               "operations do not write is established per executed path on the real code: all const operations run with the vector "
+               "object, data block and offset table mapped read-only at -O0/-O1(/-O2), plus 16 concurrent readers under ThreadSanitizer "
+               "(supporting). Not exhibited by the model: compiler-introduced writes, allocator and value-type thread safety.")
+TEXT["C20"] = ("PARTIAL in Lean. Theorems: the four list categories partition all parameter lists; every category has its public "
+               "constructors incl. the allocator-extended one and each delegates with the arity of the private constructor; the "
+               "availability table exempts only copies of move-only values and get_fixed_size without FixedSize. Well-formedness of "
+               "C++ template bodies cannot be a Lean theorem: the finite matrix the property quantifies over (418 required cells from "
+               "the Lean table x AlignAs on/off x 3 allocator kinds = 2508) is compiled cell by cell (-fsyntax-only explicit "
+               "instantiation); thorough is exhaustive, quick compiles every required cell once with a rotating variant.")
 NOTE = ("Trusted: Lean 4.33 kernel; axioms propext/Classical.choice/Quot.sound only (audited on every run); the correspondence "
         "harness, generator and runner; g++ 12.2 + ASan/UBSan. Modelled, not verified: allocator, value types, std algorithms, "
         "no size_t overflow, user preconditions (DESIGN.md §8).")
